@@ -79,7 +79,7 @@ func main() {
 		if msg == "" {
 			fmt.Println("oracle holds")
 		} else {
-			fmt.Println("oracle FAILS:", msg)
+			fmt.Println("oracle FAILS:", cleanMsg(msg))
 		}
 	case "shrink":
 		if len(os.Args) != 4 {
